@@ -109,6 +109,57 @@ def elementwise(F, mon):
                             elif str(r.schema()) != str(r0.schema()):
                                 F.add("form_dtype", case, str(r.schema()), str(r0.schema()))
                             mon.see(r, "operand form " + fname, rule=False)
+    # logical operators answer with booleans whatever the operands hold (int bit flags, sets, bools): the result reaches the
+    # dtype monitors, and its cells are the truth values of Python's own operation
+    LOGIC = {"and": operator.and_, "or": operator.or_, "xor": operator.xor}
+    flagsets = {"int flags": ([5, 6, 0, 3], [4, 1, 0, 2], 4), "bools": ([True, False, True, False], [True, True, False, False], True),
+                "bools with int scalar": ([True, False, True, False], [1, 0, 0, 1], 1), "sets": ([{1, 2}, {2}, set(), {3}], [{2}, {1}, {1}, {3}], {2})}
+    for fname, (a, b, scalar) in flagsets.items():
+        for opname, fn in LOGIC.items():
+            for oname, other in (("scalar", scalar), ("list", list(b)), ("Vector", None), ("reflected scalar", scalar), ("reflected list", list(b))):
+                v = Vector(list(a), name="L")
+                o = Vector(list(b)) if other is None else other
+                st, r, e = attempt(lambda: fn(o, v) if oname.startswith("reflected") else fn(v, o))
+                ex += 1
+                if st != "ok" or not isinstance(r, Vector):
+                    continue
+                case = {"operands": fname, "op": opname, "other": oname}
+                ys = [scalar] * len(a) if "scalar" in oname else list(b)
+                try:
+                    exp = [bool(fn(y, x)) if oname.startswith("reflected") else bool(fn(x, y)) for x, y in zip(a, ys)]
+                except Exception:      # noqa: BLE001
+                    exp = None
+                got = list(r)
+                if exp is not None and (got != exp or any(type(g) is not bool for g in got)):
+                    F.add("form_logic", case, got, exp)
+                mon.see(r, "logical operator on " + fname, rule=False)
+    # v << x and x << v with x in every container form: the cells in order, and the dtype of the list form
+    for lk, lv in DATA.items():
+        for xname, xs in (("wider kind", [2.5]), ("None", [None]), ("text", ["s"]), ("same kind", lv[:1]), ("two cells", [lv[0], 2.5]), ("nothing", [])):
+            for side in ("v << x", "x << v"):
+                def run(x):
+                    v = Vector(list(lv), name="L")
+                    return (v << x) if side == "v << x" else (x << v)
+                st0, r0, e0 = attempt(lambda: run(list(xs)))
+                if st0 != "ok" or not isinstance(r0, Vector):
+                    continue
+                mon.see(r0, "concatenation " + side + " with a list")
+                forms = dict(seq_forms(xs))
+                forms.update({"reversed": lambda: reversed(list(reversed(xs))), "dict keys": (lambda: dict.fromkeys(xs).keys()) if len(set(map(repr, xs))) == len(xs) else None,
+                              "deque": lambda: __import__("collections").deque(xs)})
+                for fname, mk in forms.items():
+                    if mk is None or fname in ("Row", "table column", "Vector", "named Vector"):
+                        continue
+                    st, r, e = attempt(lambda: run(mk()))
+                    ex += 1
+                    if st != "ok" or not isinstance(r, Vector):
+                        continue
+                    case = {"vector": lk, "added": xname, "form": fname, "written": side}
+                    if not views_equal(list(r), list(r0)):
+                        F.add("form_concat", case, list(r), list(r0))
+                    elif str(r.schema()) != str(r0.schema()):
+                        F.add("form_dtype", case, str(r.schema()), str(r0.schema()))
+                    mon.see(r, "concatenation " + side + " with " + fname)
     return ex
 
 
@@ -347,18 +398,112 @@ def relational(F, mon):
                     F.add("form_join", case, view(r) if st == "ok" else type(e).__name__ + ": " + str(e)[:80], view(r1))
                 if not _same_items(lo, keys) or not _same_items(ro, keys):
                     F.add("operands_unchanged", case, [[type(x).__name__ for x in lo], [type(x).__name__ for x in ro]], [keys, keys])
+    # CONTAINERS of key / value specs: a tuple, a generator, an iterator, a map object, a dict view ... in place of the list
+    # is rejected or gives the result of the list (one-shot iterables must not be read twice)
+    cont = {"tuple": tuple, "generator": lambda xs: (x for x in xs), "iter": lambda xs: iter(list(xs)), "map": lambda xs: map(lambda x: x, list(xs)),
+            "dict keys": lambda xs: {x: 0 for x in xs}.keys() if all(isinstance(x, str) for x in xs) else tuple(xs), "reversed": lambda xs: reversed(list(reversed(list(xs))))}
+    jr = lambda: Table({"Key One": ["a", "b", "a"], "k2": [1, 2, 2], "z": [1, 2, 3]})       # noqa: E731
+    calls2 = {
+        "sort_by keys": lambda t, C, K: t.sort_by(C(K(t, ["Key One", "k2"])), reverse=[True, False]),
+        "sort_by reverse flags": lambda t, C, K: t.sort_by(K(t, ["Key One", "k2"]), reverse=C([True, False])),
+        "aggregate over": lambda t, C, K: t.aggregate(over=C(K(t, ["Key One", "k2"])), sum_over=["val"]),
+        "aggregate sum_over": lambda t, C, K: t.aggregate(over=["Key One"], sum_over=C(K(t, ["val", "w"])), max_over=C(K(t, ["w"]))),
+        "aggregate count_over": lambda t, C, K: t.aggregate(over="k2", count_over=C(K(t, ["val"])), min_over=C(K(t, ["val", "w"]))),
+        "window over": lambda t, C, K: t.window(over=C(K(t, ["Key One", "k2"])), sum_over=["val"]),
+        "window sum_over": lambda t, C, K: t.window(over=["Key One"], sum_over=C(K(t, ["val", "w"])), max_over=C(K(t, ["w"]))),
+        "window mean_over": lambda t, C, K: t.window(over="k2", mean_over=C(K(t, ["val"])), count_over=C(K(t, ["val", "w"]))),
+        "join keys": lambda t, C, K: t.join(jr(), C(K(t, ["Key One", "k2"])), C(["Key One", "k2"]), expect="many_to_many"),
+        "inner_join keys": lambda t, C, K: t.inner_join(jr(), C(K(t, ["Key One", "k2"])), C(["Key One", "k2"]), expect="many_to_many"),
+        "full_join keys": lambda t, C, K: t.full_join(jr(), C(K(t, ["Key One", "k2"])), C(["Key One", "k2"]), expect="many_to_many"),
+    }
+    kinds = {"names": lambda t, names: list(names), "column objects": lambda t, names: [t[nm] for nm in names]}
+    for cname, call in calls2.items():
+        for kname, K in kinds.items():
+            st0, r0, e0 = attempt(lambda: call(tab(), list, K))
+            if st0 != "ok":
+                continue
+            for fname, C in cont.items():
+                t = tab()
+                st, r, e = attempt(lambda: call(t, C, K))
+                ex += 1
+                if st != "ok":
+                    continue
+                case = {"call": cname, "specs given as": kname, "in a": fname}
+                if not isinstance(r, Table) or not views_equal(table_view(r), table_view(r0)):
+                    F.add("form_" + cname.split()[0].replace("inner_join", "join").replace("full_join", "join"), case, view(r), view(r0))
+    # containers the caller keeps: the lists / dicts handed to one call are handed to the next (on another table); they
+    # hold what they held, and the second result is that of fresh containers
+    def ga():
+        return Table({"g": ["x", "y", "x", "y"], "v": [1, 2, 3, 4], "w": [10, 20, 30, 40]})
+
+    def gb():
+        return Table({"g": ["p", "p", "q", "q"], "v": [100, 200, 300, 400], "w": [5, 6, 7, 8]})
+    for m in ("aggregate", "window"):
+        def mk_args():
+            return {"over": ["g"], "sum_over": ["v", "w"], "max_over": ["w"], "apply": {"spread": ("v", lambda xs: max(xs) - min(xs)), "n": ("w", len)}}
+        st1, r1, e1 = attempt(lambda: getattr(gb(), m)(**mk_args()))
+        if st1 != "ok":
+            continue
+        args = mk_args()
+        snap = {k: (list(v) if isinstance(v, list) else dict(v)) for k, v in args.items()}
+        attempt(lambda: getattr(ga(), m)(**args))
+        st, r, e = attempt(lambda: getattr(gb(), m)(**args))
+        ex += 1
+        case = {"call": m, "how": "over / *_over lists and the apply dict reused from an earlier call on another table"}
+        if st != "ok" or not views_equal(table_view(r), table_view(r1)):
+            F.add("form_" + m, case, view(r) if st == "ok" else type(e).__name__ + ": " + str(e)[:80], view(r1))
+        for k, v in args.items():
+            same = _same_items(v, snap[k]) if isinstance(v, list) else (list(v) == list(snap[k]) and all(v[n] is snap[k][n] for n in v))
+            if not same:
+                F.add("operands_unchanged", dict(case, argument=k), repr(v)[:120], repr(snap[k])[:120])
+    # a key listed twice adds nothing to a lexicographic order: the first listing decides, direction included
+    st_tab = lambda: Table({"a": [2, 1, None, 2, 1, 3], "b": ["x", "y", "x", "x", "x", None], "c": [1, 2, 3, 4, 5, 6]})       # noqa: E731
+    for label, rep_call, ref_call in (
+            ("['a','b','a'] reverse [F,F,T]", lambda t: t.sort_by(["a", "b", "a"], reverse=[False, False, True]), lambda t: t.sort_by(["a", "b"], reverse=[False, False])),
+            ("['a','b','a'] reverse [T,F,F]", lambda t: t.sort_by(["a", "b", "a"], reverse=[True, False, False]), lambda t: t.sort_by(["a", "b"], reverse=[True, False])),
+            ("['a','a'] reverse [F,T]", lambda t: t.sort_by(["a", "a"], reverse=[False, True]), lambda t: t.sort_by("a")),
+            ("[t.a, t.a] reverse [T,F]", lambda t: t.sort_by([t.a, t.a], reverse=[True, False]), lambda t: t.sort_by("a", reverse=True)),
+            ("[t.b, t.a, t.b] reverse [T,F,F]", lambda t: t.sort_by([t.b, t.a, t.b], reverse=[True, False, False]), lambda t: t.sort_by(["b", "a"], reverse=[True, False])),
+            ("['a','a'] reverse True", lambda t: t.sort_by(["a", "a"], reverse=True), lambda t: t.sort_by("a", reverse=True))):
+        st0, r0, e0 = attempt(lambda: ref_call(st_tab()))
+        st, r, e = attempt(lambda: rep_call(st_tab()))
+        ex += 1
+        if st != "ok" or st0 != "ok":
+            continue                    # refusing a repeated key is allowed
+        if not views_equal(table_view(r), table_view(r0)):
+            F.add("form_sort_by", {"call": "sort_by", "keys": label, "how": "a key listed twice"}, view(r), view(r0))
+    # keys handed over as UNNAMED vectors (computed keys carry no name), two of them: the join is the join by the names,
+    # under every expect word - accepted where that is accepted, refused where that is refused
+    def ul():
+        return Table({"k": [1, 1, 2, 2], "g": ["x", "y", "x", "y"], "v": [1, 2, 3, 4]})
+
+    def ur():
+        return Table({"k": [1, 1, 2, 3], "g": ["x", "y", "y", "x"], "z": [10, 20, 30, 40]})
+    for m in ("inner_join", "join", "full_join"):
+        for w in ("one_to_one", "many_to_one", "one_to_many", "many_to_many"):
+            st0, r0, e0 = attempt(lambda: getattr(ul(), m)(ur(), ["k", "g"], ["k", "g"], expect=w))
+            for kname, mkk in (("unnamed equal vectors", lambda t: [Vector(list(t.k)), Vector(list(t.g))]), ("computed vectors", lambda t: [t.k * 1, t.g + ""]),
+                               ("a name and an unnamed vector", lambda t: ["k", Vector(list(t.g))])):
+                a, b = ul(), ur()
+                st, r, e = attempt(lambda: getattr(a, m)(b, mkk(a), mkk(b), expect=w))
+                ex += 1
+                case = {"call": m, "expect": w, "keys": kname}
+                if st != st0:
+                    F.add("form_join", case, "accepted" if st == "ok" else type(e).__name__ + ": " + str(e)[:80], "accepted" if st0 == "ok" else "refused (" + type(e0).__name__ + ")")
+                elif st == "ok" and not views_equal(table_view(r), table_view(r0)):
+                    F.add("form_join", case, view(r), view(r0))
     # a table joined with ITSELF is joined with an equal table: the same rows as against a distinct copy, whether the two key
     # sides name the same column or different ones (employee / boss)
     def emp():
         return Table({"id": [1, 2, 3, 4, 5], "boss": [None, 1, 1, 2, 9], "dept": ["a", "b", "a", "b", "a"], "name": ["r", "s", "t", "u", "w"]})
-    for m in ("inner_join", "join", "full_join"):
+    for m, w in itertools.product(("inner_join", "join", "full_join"), ("many_to_many", "one_to_one", "many_to_one", "one_to_many")):
         for lk, rk in (("boss", "id"), ("id", "boss"), ("id", "id"), ("dept", "dept"), (["dept", "boss"], ["dept", "id"])):
             t = emp()
             before = table_view(t)
-            st0, r0, e0 = attempt(lambda: getattr(emp(), m)(emp(), lk, rk, expect="many_to_many"))
-            st, r, e = attempt(lambda: getattr(t, m)(t, lk, rk, expect="many_to_many"))
+            st0, r0, e0 = attempt(lambda: getattr(emp(), m)(emp(), lk, rk, expect=w))
+            st, r, e = attempt(lambda: getattr(t, m)(t, lk, rk, expect=w))
             ex += 1
-            case = {"call": m, "left_on": lk, "right_on": rk, "how": "t joined with t itself, against t joined with an equal table"}
+            case = {"call": m, "left_on": lk, "right_on": rk, "expect": w, "how": "t joined with t itself, against t joined with an equal table"}
             if st != st0 or (st == "ok" and not views_equal(table_view(r), table_view(r0))):
                 F.add("form_join", case, view(r) if st == "ok" else type(e).__name__ + ": " + str(e)[:80], view(r0) if st0 == "ok" else type(e0).__name__)
             if not views_equal(table_view(t), before):
@@ -919,10 +1064,93 @@ def odd_operands(F, mon):
     return ex
 
 
+def promotions(F, mon):
+    """C18 / C03 / C01: an in-place write that changes a vector's kind or nullability (int -> float -> complex, bool -> int,
+    date -> datetime, anything -> object, a first None) is still a write to THAT vector: its name, the table's column names
+    and the other cells stay, the dtype is truthful, and no other column is touched - through every write form"""
+    from datetime import datetime as _dtm
+    ex = 0
+    steps = {"int -> float": ([1, 2, 3], 2.5), "int -> complex": ([1, 2, 3], 2j), "float -> complex": ([1.5, 2.5, 3.5], 1j), "bool -> int": ([True, False, True], 7),
+             "date -> datetime": ([date(2020, 1, 1), date(2020, 1, 2), date(2020, 1, 3)], _dtm(2021, 5, 6, 7, 8)), "int -> object": ([1, 2, 3], "s"),
+             "str -> object": (["a", "b", "c"], 5), "int -> int?": ([1, 2, 3], None), "date -> date?": ([date(2020, 1, 1), date(2020, 1, 2), date(2020, 1, 3)], None),
+             "float? -> complex?": ([1.5, None, 3.5], 1j), "date? -> datetime?": ([date(2020, 1, 1), None, date(2020, 1, 3)], _dtm(2021, 5, 6, 7, 8))}
+    vwrites = {"v[1] = x": lambda v, x: v.__setitem__(1, x), "v[-1] = x": lambda v, x: v.__setitem__(-1, x), "v[0:2] = [x, x]": lambda v, x: v.__setitem__(slice(0, 2), [x, x]),
+               "v[mask] = x": lambda v, x: v.__setitem__([True, False, False], x), "v[[2]] = [x]": lambda v, x: v.__setitem__([2], [x]), "v[:] = x": lambda v, x: v.__setitem__(slice(None), x)}
+    twrites = {"t[1, 'due'] = x": lambda t, x: t.__setitem__((1, "due"), x), "t[0:2, 'due'] = [x, x]": lambda t, x: t.__setitem__((slice(0, 2), "due"), [x, x]),
+               "t.due[1] = x": lambda t, x: t.due.__setitem__(1, x), "t['due'][2] = x": lambda t, x: t["due"].__setitem__(2, x),
+               "t[1] = [id, x, s]": lambda t, x: t.__setitem__(1, [99, x, "row"]), "t[1, 1] = x": lambda t, x: t.__setitem__((1, 1), x)}
+    for sname, (vals, x) in steps.items():
+        for wname, write in vwrites.items():
+            for nm in ("due", "Due Date", None):
+                v = Vector(list(vals), name=nm)
+                st, _, e = attempt(lambda: write(v, x))
+                ex += 1
+                if st != "ok":
+                    continue
+                case = {"promotion": sname, "written": wname, "name": nm}
+                if v.name != nm:
+                    F.add("names", case, v.name, nm)
+                mon.see(v, "vector after a promoting write (" + sname + ")")
+                st2, w, e2 = attempt(lambda: v[0:2])
+                if st2 == "ok" and isinstance(w, Vector):
+                    if w.name != nm:
+                        F.add("names", dict(case, then="v[0:2]"), w.name, nm)
+                    mon.see(w, "slice after a promoting write")
+        for wname, write in twrites.items():
+            t = Table([Vector([1, 2, 3], name="id"), Vector(list(vals), name="due"), Vector(["p", "q", "r"], name="note")])
+            st, _, e = attempt(lambda: write(t, x))
+            ex += 1
+            if st != "ok":
+                continue
+            case = {"promotion": sname, "written": wname}
+            if t.column_names() != ["id", "due", "note"]:
+                F.add("names", case, t.column_names(), ["id", "due", "note"])
+            if [c.name for c in t.cols()] != ["id", "due", "note"]:
+                F.add("names", dict(case, read="column objects"), [c.name for c in t.cols()], ["id", "due", "note"])
+            for col in t.cols():
+                mon.see(col, "column after a promoting table write (" + sname + ")")
+            for dname, d in (("t[0:2]", lambda: t[0:2]), ("t.copy()", lambda: t.copy()), ("t[('due','id')]", lambda: t[("due", "id")]), ("t.sort_by('id')", lambda: t.sort_by("id"))):
+                st2, r, e2 = attempt(d)
+                if st2 == "ok" and isinstance(r, Table):
+                    want = ["due", "id"] if dname.startswith("t[('due'") else ["id", "due", "note"]
+                    if r.column_names() != want:
+                        F.add("names", dict(case, then=dname), r.column_names(), want)
+    # column names that are not strings: the aggregate / window outputs are named as for the name's text (1 -> '1', True ->
+    # 'True', 1.0 -> '1.0'), whichever names - equal across types or not - were seen before, in this table or another
+    # (falsy names - 0, False, 0.0 - are read as "no name" by the pinned tree, like None and ""; they are left out)
+    from decimal import Decimal as _Dec
+    from fractions import Fraction as _Fr
+    odd_names = [1, True, 1.0, 2, 2.0, -1, 10 ** 20, _Dec(1), _Fr(1), _Dec("1.0"), 1 + 0j]
+    for order in (odd_names, list(reversed(odd_names)), odd_names[2:] + odd_names[:2]):
+        for m in ("aggregate", "window"):
+            for nm in order:
+                def names_of(name):
+                    t = Table([Vector(["x", "y", "x"], name="g"), Vector([1, 2, 3], name=name)])
+                    return getattr(t, m)(over="g", sum_over=t.cols()[1], max_over=t.cols()[1]).column_names()
+                st, got, e = attempt(lambda: names_of(nm))
+                st0, want, e0 = attempt(lambda: names_of(str(nm)))
+                ex += 1
+                if st != "ok" or st0 != "ok":
+                    continue
+                if got != want:
+                    F.add("agg_names", {"call": m, "column named": repr(nm), "names seen before": [repr(x) for x in order[:order.index(nm)]]}, got, want)
+        # ... and together in one table
+        for m in ("aggregate", "window"):
+            def names_all(conv):
+                t = Table([Vector(["x", "y", "x"], name="g")] + [Vector([1, 2, 3], name=conv(nm)) for nm in order[:4]])
+                return getattr(t, m)(over="g", sum_over=list(t.cols()[1:])).column_names()
+            st, got, e = attempt(lambda: names_all(lambda x: x))
+            st0, want, e0 = attempt(lambda: names_all(str))
+            ex += 1
+            if st == "ok" and st0 == "ok" and got != want:
+                F.add("agg_names", {"call": m, "columns named": [repr(x) for x in order[:4]]}, got, want)
+    return ex
+
+
 def main():
     out = sys.argv[1]
     F, mon = Fails(), Monitor()
-    ex = elementwise(F, mon) + indexing(F, mon) + relational(F, mon) + purity(F, mon) + grid2d(F, mon) + held_views(F, mon) + history_reads(F, mon) + odd_operands(F, mon)
+    ex = elementwise(F, mon) + indexing(F, mon) + relational(F, mon) + purity(F, mon) + grid2d(F, mon) + held_views(F, mon) + history_reads(F, mon) + odd_operands(F, mon) + promotions(F, mon)
     json.dump({"executed": ex, "failures": F.items, "per_clause": F.per, "skipped": {}, **mon.dump()}, open(out, "w"), default=str)
 
 
